@@ -573,6 +573,70 @@ def _call(log: SourceLog, rng_obj, thunk, script=None, fail_at=None):
     return ob, list(log.calls)
 
 
+def _threads_phase(case: dict, plan: dict, kreq: int, outcomes: dict, aux: random.Random) -> dict:
+    """
+    Two or three real caller threads, interleaved at line boundaries of fpy2 by the seeded baton
+    scheduler, round the same operand through one shared context and one shared scripted source.
+    The source records which thread drew which value; a thread's result must be the outcome the
+    sequential sweep recorded for the value that thread drew.
+    """
+    import os
+    from sim.threads import Scheduler
+    nthreads = aux.choice([2, 2, 3])
+    rounds = aux.randint(2, 4)
+    K = (1 << kreq) - 1
+    script = [aux.choice([0, K, aux.randrange(K + 1)]) for _ in range(nthreads * rounds + 4)]
+    log, rng_obj = _sources(case['source'])
+    ctx = build_context(case, rng_obj, SourceLog())
+    thunk, _ = thunk_for(plan, ctx)
+    sched = Scheduler(nthreads, random.Random(aux.randrange(1 << 60)),
+                      trace_prefixes=(os.path.join(core.REPO, 'fpy2') + os.sep,),
+                      mean_quantum=aux.choice([1, 2, 4, 9]), max_steps=400_000)
+    drawn: dict[int, list] = {i: [] for i in range(nthreads)}
+    results: dict[int, list] = {i: [] for i in range(nthreads)}
+    log.script = script
+    log.pos = 0
+    log.fail_at = None
+    log.calls.clear()
+    orig_next = log.next
+
+    def next_logged(k):
+        v = orig_next(k)
+        drawn[sched.cur].append((k, v))
+        return v
+    log.next = next_logged
+
+    def body(sc, i):
+        for _ in range(rounds):
+            n_before = len(drawn[i])
+            ob = _observe(thunk)
+            results[i].append((ob, drawn[i][n_before:]))
+
+    violations = []
+    try:
+        if rng_obj is None:
+            with GlobalPatch(log):
+                ok = sched.run_threads([body] * nthreads, timeout=60.0)
+        else:
+            ok = sched.run_threads([body] * nthreads, timeout=60.0)
+    finally:
+        log.next = orig_next
+    if not ok or sched.errors:
+        return {'violations': [], 'stats': {'undecided': (sched.errors or ['timeout'])[0][:200]}}
+    for i in range(nthreads):
+        for ob, mine in results[i]:
+            if len(mine) != 1 or mine[0][0] != kreq:
+                violations.append(('threads-draw-count', {'thread': i, 'draws_by_this_thread': mine, 'expected': 1}))
+                break
+            want = outcomes.get(mine[0][1])
+            if ob != want:
+                violations.append(('threads-result-not-explained-by-own-draw',
+                                   {'thread': i, 'drew': mine[0][1], 'got': ob, 'sequential_outcome_for_that_draw': want}))
+                break
+    return {'violations': violations, 'stats': {'threads': nthreads, 'roundings': nthreads * rounds, 'steps': sched.steps,
+                                                'handoffs': sched.switches}}
+
+
 def run_case(case: dict) -> dict:
     """
     Executes one case against the real code, sweeping the outcome space of the
@@ -786,6 +850,13 @@ def run_case(case: dict) -> dict:
             _call(log, rng_obj, thunk, [0])
         if glog.calls:
             vio('global-source-used', {'draws': list(glog.calls)})
+    # schedule dimension: several caller threads share the context and its source; every
+    # result must be explained by the value *its own* thread drew
+    if not exp['representable'] and kreq <= 6 and aux.random() < case.get('thread_rate', 0.12):
+        tv = _threads_phase(case, plan, kreq, outcomes, aux)
+        info['thread_phase'] = tv['stats']
+        for cls, detail in tv['violations']:
+            vio(cls, detail)
     # fault: the source raises -> the rounding raises, nothing is returned
     ob, calls = _call(log, rng_obj, thunk, [0], fail_at=0)
     if ob.get('exc') != 'SourceFailure':
@@ -973,6 +1044,15 @@ def run(seed: int, tier: str) -> dict:
         st.count('draws_swept', 'total', 1 << info.get('k_eff', 0))
         if info.get('fault_rng_fail'):
             st.count('faults', 'rng-fail', 1)
+        tp = info.get('thread_phase')
+        if tp:
+            if 'undecided' in tp:
+                st.count('thread_phase', 'undecided')
+            else:
+                st.count('thread_phase', 'cases')
+                st.count('thread_phase', 'roundings', tp['roundings'])
+                st.count('thread_phase', 'steps', tp['steps'])
+                st.count('thread_phase', 'handoffs', tp['handoffs'])
         for probe in ('carry', 'top_gap', 'representable', 'unobservable'):
             if info.get(probe):
                 st.count('probes', probe)
@@ -1071,6 +1151,7 @@ def main(tier: str) -> int:
         'by_k': dict(c.get('k', {})),
         'by_offset': dict(c.get('offset', {})),
         'program_route_cases': dict(c.get('program_cases', {})),
+        'shared_source_thread_phase': dict(c.get('thread_phase', {})),
         'skipped': dict(c.get('skipped', {})),
         'components': {
             'real': ['fpy2.number.number.reals (RealFloat.round/_round_at_stochastic)', 'all *Context.round/round_at/round_params',
